@@ -3,7 +3,7 @@
 the current /repo tree and report disagreements.   usage: trycases.py <module.function> [flags] [sched] [--parse|--lex]"""
 import sys, os, random, json, collections
 sys.path.insert(0, os.path.dirname(os.path.abspath(__file__)))
-import vlib, props, pstreams, pstreams2, pstreams3, pstreams4, streams
+import vlib, props, pstreams, pstreams2, pstreams3, pstreams4, pstreams5, streams
 
 def main():
     name = sys.argv[1]; flags = sys.argv[2] if len(sys.argv) > 2 and not sys.argv[2].startswith('--') else '-'
